@@ -170,14 +170,6 @@ def run(ctx):
                 if hl is not None and hl[0] == name:
                     val = hl[1]
                     continue
-                if c and c[0] == "scalar" and isinstance(c[2], bool):
-                    v, neg = c[1], False
-                    while v[0] == "unop" and v[1] == "Not":
-                        v, neg = v[2], not neg
-                    if v[0] == "call" and re.search(r"Iterator>::(any|all)$|Iterator>?::any(::<|$)", v[1]) and name in FRM.term_lits(facts, v):
-                        val = c[2] != neg
-                if c and c[0] == "variant" and c[2] in ("Some", "None") and c[3] and c[3][0] == "call" and re.search(r"Iterator>::(find|position)$", c[3][1]) and name in FRM.term_lits(facts, c[3]):
-                    val = c[2] == "Some"
             cnt = len([1 for i, nm, v in S["headers"] if nm == name.encode()])
             seen_vals.add(val)
             if val is None or cnt != (0 if val else 1):
@@ -281,6 +273,29 @@ def run(ctx):
         reach = wmh.reach([some_t], blocked=set(writes[:1]), unwind=False)
         resid = set(wmh.call_blocks(lambda t2: t2.get("callee") == "std::ops::FromResidual::from_residual"))
         ctx.ob("C19.5", "%s|no-skip" % wmh.id, "no header is skipped", nexts[0] not in reach, wmh.loc(some_t))
+    # ---- C19.6 every response goes through the response printer: nothing else in the crate writes a status line (a response written by hand
+    # carries none of the automatic headers and none of the header policy)
+    import rules_C04
+    members = {d for dep, d in wmh.inlined} | {wmh0.id}
+    n6 = 0
+    for k, g in sorted(facts.local_fns.items()):
+        if k.startswith("test") or "::tests::" in k or "::test::" in k:
+            continue
+        for bb, t in g.calls():
+            lit = None
+            if t.get("callee") == "std::io::Write::write_fmt":
+                tpl, x = rules_C04.fmt_template(g, t)
+                if tpl and any(isinstance(y, str) and "HTTP/" in y for y in tpl):
+                    lit = "".join(y if y != "ARG" else "{}" for y in tpl)
+            elif t.get("callee") in ("std::io::Write::write_all", "std::io::Write::write") and len(t["args"]) > 1:
+                for c in arg_consts(g, t):
+                    if isinstance(c, (bytes, str)) and (c[:5] in (b"HTTP/", "HTTP/")):
+                        lit = str(c)
+            if lit is not None:
+                n6 += 1
+                ctx.ob("C19.6", "status-line|%s" % re.sub(r"::\{closure#\d+\}", "", g.id), "a status line is written only by the response printer's head writer (every response gets the automatic headers and the header policy)",
+                       re.sub(r"::\{closure#\d+\}", "", g.id) in members, g.loc(bb), lit[:60])
+    ctx.floor("C19.6 places that write a status line", n6, 1)
     return {}
 
 
